@@ -59,5 +59,13 @@ Definition run (x : sx) : sx :=
           end
       | _ => SL [SL [SN 2]; sx_bool false]
       end
+  | SL [SL [SN 7; SN _n]; impl] =>
+      (* long one-sided fork (harness/src/c07.rs scenario_long_fork): too large for the list-based
+         model; all runs must agree and the power-levels event of the long fork ($p2) must win *)
+      let expect := SL [SN 0; SL [SN 1; SS s!"$p2"]] in
+      SL [expect; sx_bool (match impl with
+                           | SL [SN 0; SL [SN 1; SS w]] => str_eqb w s!"$p2"
+                           | _ => false
+                           end)]
   | _ => sx_bad
   end.
